@@ -33,7 +33,7 @@ REAL_COMPONENTS = ["Pipeline / LocalSemantivaOrchestrator / SequentialSemantivaE
 STUB_COMPONENTS = ["leaf processors (with a counting tick, nothing recorded per run)", "thread scheduler (mode 4 only)", "SimClock/SimUUID"]
 ASSUMPTIONS = ["gc object increments are reproducible to within a few objects per 100 runs inside a forked child (a no-op control history calibrates the harness's own "
                "footprint to 0)", "proportional growth is what is forbidden; a constant offset is allowed"]
-REQUIRED_PROBES = ["mode.reuse", "mode.fresh", "mode.launch", "mode.queue", "pipeline_with_sweep", "pipeline_with_shorthand",
+REQUIRED_PROBES = ["mode.reuse", "mode.fresh", "mode.launch", "mode.queue", "mode.launches", "queue_job_profile_with_unimportable_module", "pipeline_with_sweep", "pipeline_with_shorthand",
                    "failing_configuration_repeated", "traced_repeats"]
 CONFIG = {
     "quick": {"runs": 64, "budget_s": 240, "timeout_s": 400},
@@ -56,8 +56,11 @@ def generate(rng: random.Random, tier: str, seed: int) -> dict:
     modes = ["reuse", "fresh", "launch"]
     if rng.random() < 0.25:
         modes.append("queue")
+    if rng.random() < 0.25:
+        modes.append("launches")      # the CLI driven in-process once per run (a new stdout object per launch)
     sc = {"base": {k: base[k] for k in ("nodes", "context", "init_data")}, "modes": modes, "n": 450,
-          "sched_seed": rng.getrandbits(48), "failing": None, "traced": rng.random() < 0.5}
+          "sched_seed": rng.getrandbits(48), "failing": None, "traced": rng.random() < 0.5,
+          "bad_profile_module": rng.random() < 0.35}   # queue mode: the job's registry profile names a module that cannot be imported
     if rng.random() < 0.3:
         # the repeated configuration FAILS at a node after the first one (every repetition raises / fails its Future)
         fs = [f for f in gen.applicable_failures(base) if f[0] in ("unresolvable", "type_gate", "undeclared_op", "undeclared_ctx") and f[1] >= 1]
@@ -66,7 +69,7 @@ def generate(rng: random.Random, tier: str, seed: int) -> dict:
             f = gen.apply_failure(base, kind, k)
             sc["base"]["nodes"] = f["nodes"]
             sc["failing"] = [kind, k]
-            sc["modes"] = [m for m in modes if m != "launch"] + (["queue"] if "queue" not in modes and rng.random() < 0.5 else [])
+            sc["modes"] = [m for m in modes if m not in ("launch", "launches")] + (["queue"] if "queue" not in modes and rng.random() < 0.5 else [])
     return sc
 
 
@@ -274,6 +277,17 @@ def _run_mode(sc: dict, mode: str, w, stats: dict) -> list[dict]:
             r = harness.run_cli(argv)
             if r["code"] != 0:
                 raise RuntimeError(f"launch failed: {r['code']} {r['stderr'][:300]}")
+        elif mode == "launches":
+            svworld.WORLD = w
+            harness.write_cli_config(base, "one.yaml", executor=False,
+                                     trace=harness.trace_cfg("file", "hash", "c18_launches") if traced else None)
+            argv = ["run", "one.yaml", "-q"]
+            for k, v in base["context"].items():
+                argv += ["--context", f"{k}={json.dumps(v)}"]
+            for _ in range(total):
+                r = harness.run_cli(argv)         # redirect_stdout(StringIO()) inside: a fresh stdout object per launch
+                if r["code"] != 0:
+                    raise RuntimeError(f"launch failed: {r['code']} {r['stderr'][:300]}")
         elif mode == "queue":
             _queue_mode(sc, total, roots, lg)
         if len(sampler.samples) != 3:
@@ -336,10 +350,15 @@ def _queue_mode(sc: dict, total: int, roots: dict, lg) -> None:
         orch = qo.QueueSemantivaOrchestrator(tr, stop_event=stop, logger=lg)
         roots["queue_orchestrator"] = orch
         state = {"failed": None}
+        profile = None
+        if sc.get("bad_profile_module"):
+            from semantiva.registry import RegistryProfile
+            profile = RegistryProfile(modules=["svsim.lib", "svsim_optional_plugin_that_is_not_installed"])
 
         def client():
             for i in range(total):
-                fut = orch.enqueue(copy.deepcopy(base["nodes"]), context=ContextType(copy.deepcopy(base["context"])), return_future=True)
+                fut = orch.enqueue(copy.deepcopy(base["nodes"]), context=ContextType(copy.deepcopy(base["context"])), return_future=True,
+                                   registry_profile=profile)
                 waited = 0
                 while not fut.done():
                     threads.sim_sleep(0.05)
@@ -404,6 +423,9 @@ def execute(sc: dict, seed: int) -> dict:
             nontrivial.append(f"{bd}/{mode}")
         if sc.get("traced"):
             stats["probe.traced_repeats"] = 1
+        if sc.get("bad_profile_module") and "queue" in sc["modes"]:
+            stats["probe.queue_job_profile_with_unimportable_module"] = 1
+            stats["fault.module_import_error"] = 1
         if sc.get("failing"):
             stats["probe.failing_configuration_repeated"] = 1
             stats[f"fault.{sc['failing'][0]}"] = 1
